@@ -15,7 +15,7 @@ pub fn gen(prop: &str, seed: u64, n: usize, len: usize, out: &str) {
 }
 
 /// C18: sequences over 1–2 sites, 1–2 rooms, 2 entities, several days, biased towards what the proofs
-/// needed as hypotheses: requests ordered after acknowledgements (streams closed early), changes that
+/// needed as hypotheses: requests ordered after acknowledgements, changes that
 /// mark nothing (reference deletions of absent references), re-ingested tombstones, room moves,
 /// no-op updates, concurrent mixes, flushes that show what was left marked.
 fn gen_ev(seed: u64, n: usize, len: usize, out: &str) {
@@ -91,7 +91,10 @@ fn gen_ev(seed: u64, n: usize, len: usize, out: &str) {
                 8 => {
                     if !my_rooms.is_empty() {
                         let k = 1 + g.below(4);
-                        let mode = if g.chance(2, 3) { "acked" } else { "early" };
+                        // `early` (reader held, stream closed before the acknowledgements) is no longer generated: since
+                        // /repo e303771 the request waits for the acknowledgements and the harness would wait 3 s for an
+                        // event that cannot come; the corpus keeps it as a regression replay
+                        let mode = "acked";
                         let mut items = vec![];
                         for _ in 0..k {
                             let r = *g.pick(&my_rooms);
